@@ -409,7 +409,7 @@ import types as _types
 
 import codemodder.sarifs as sarifs_mod
 
-TOOLS = ["Semgrep OSS", "CodeQL", "other tool", "semgrep PRO"]
+TOOLS = ["Semgrep OSS", "CodeQL", "other tool", "semgrep PRO", None]  # None: a malformed run without driver name (skipped on its own)
 
 
 class _EPs:
@@ -421,12 +421,14 @@ class _EPs:
 
 
 def _tool_of(name):
+    if name is None:
+        return None
     return "semgrep" if "semgrep" in name.lower() else ("codeql" if "CodeQL" in name else None)
 
 
 def sarif_tool_detection(n_files: int, two0: bool, two1: bool, t00: int, t01: int, t10: int, t11: int) -> bool:
     """detect_sarif_tools over 1-2 SARIF files of 1-2 runs each, every run's tool chosen from {Semgrep OSS, CodeQL,
-    another tool, semgrep PRO}: unless the input is rejected loudly (DuplicateToolError, only when some tool has two
+    another tool, semgrep PRO, a malformed run without driver name}: unless the input is rejected loudly (DuplicateToolError, only when some tool has two
     runs), EVERY run of a registered tool has its file listed under that tool - a file mixing runs of two tools
     is listed under both - and no file is listed under a tool it has no run of.
     pre: 1 <= n_files <= 2
@@ -437,7 +439,7 @@ def sarif_tool_detection(n_files: int, two0: bool, two1: bool, t00: int, t01: in
     runs_of = []
     for i, sels in enumerate(spec):
         names = [pick(TOOLS, t) for t in sels]
-        data = {"runs": [{"tool": {"driver": {"name": nm}}, "results": []} for nm in names]}
+        data = {"runs": [{"tool": {"driver": ({"name": nm} if nm is not None else {})}, "results": []} for nm in names]}
         vfs.json_file("/s/f%d.sarif" % i, data)
         files.append(Path("/s/f%d.sarif" % i))
         runs_of.append([_tool_of(nm) for nm in names])
